@@ -238,3 +238,31 @@ def expand_locals(fn_node: ast.AST, e: ast.AST, params=(), depth: int = 4, defs:
             return n
 
     return R(depth).visit(_copy.deepcopy(e))
+
+
+def unrolled_body(fn_node: ast.AST, params=()) -> List[ast.stmt]:
+    """the function's top-level statements with every `for x in (e1, ..., ek): body` over a literal tuple of plain names
+    (no own break / continue) replaced by k copies of the body in which x is replaced by e_i -- a syntactic view for
+    rules that read the *order* of tests (the engines unroll such loops semantically on their own)"""
+    import copy as _copy
+    from .confinement import unroll_items
+
+    class Sub(ast.NodeTransformer):
+        def __init__(self, name, repl):
+            self.name, self.repl = name, repl
+
+        def visit_Name(self, n):
+            if n.id == self.name and isinstance(n.ctx, ast.Load):
+                return ast.copy_location(_copy.deepcopy(self.repl), n)
+            return n
+
+    out: List[ast.stmt] = []
+    for st in fn_node.body:
+        items = unroll_items(st, fn_node, params) if isinstance(st, ast.For) else None
+        if items is not None and isinstance(st.target, ast.Name) and all(isinstance(e, ast.Name) for e in items) and not st.orelse:
+            for e in items:
+                for b in st.body:
+                    out.append(Sub(st.target.id, e).visit(_copy.deepcopy(b)))
+        else:
+            out.append(st)
+    return out
